@@ -46,6 +46,11 @@ Min2(a, b)    == IF a < b THEN a ELSE b
 SumOver(S, F(_)) == FoldSet(LAMBDA x, acc : acc + F(x), 0, S)
 SortedSeq(S)  == SetToSortSeq(S, <)            \* for sets of Nat
 
+\* unusual-but-valid spellings of an input (optional fields of an action): the coin of a deposit / a price given in
+\* another denomination than the chain's ("f"), the provider's address written in upper-case bech32 (same account)
+ADenom(a)  == IF "denom"  \in DOMAIN a THEN a.denom  ELSE "uakt"
+APDenom(a) == IF "pdenom" \in DOMAIN a THEN a.pdenom ELSE "uakt"
+
 EmptyState ==
   [height |-> 1, bank |-> <<>>, eacct |-> <<>>, epay |-> <<>>, dep |-> <<>>, grp |-> <<>>,
    ord |-> <<>>, bid |-> <<>>, lease |-> <<>>, prov |-> <<>>, attest |-> <<>>]
@@ -231,7 +236,7 @@ Res(r)   == [S |-> r.S, err |-> r.err, bound |-> FALSE]
 \* a.groups : sequence of [price, req, allOf, anyOf]
 CreateDeployment(S, a) ==
   LET did == DId(a.t, a.d)  n == Len(a.groups) IN
-  IF Has(S.dep, did) \/ a.deposit < MinDeposit \/ n = 0 THEN Fail(S)
+  IF Has(S.dep, did) \/ a.deposit < MinDeposit \/ n = 0 \/ ADenom(a) # "uakt" THEN Fail(S)
   ELSE IF \E g \in 1..n : g \notin GSeqs THEN [S |-> S, err |-> TRUE, bound |-> TRUE]
   ELSE
   LET S1 == [S EXCEPT !.dep = Put(@, did, [state |-> "active", version |-> a.version, owner |-> a.t]),
@@ -248,7 +253,7 @@ CreateDeployment(S, a) ==
 
 DepositDeployment(S, a) ==
   LET did == DId(a.t, a.d) IN
-  IF ~Has(S.dep, did) \/ S.dep[did].state # "active" \/ a.amount = 0 THEN Fail(S)
+  IF ~Has(S.dep, did) \/ S.dep[did].state # "active" \/ a.amount = 0 \/ ADenom(a) # "uakt" THEN Fail(S)
   ELSE Res(AccountDeposit(S, DAcc(did), a.amount))
 
 UpdateDeployment(S, a) ==
@@ -279,6 +284,7 @@ StartGroup(S, a) ==
 CreateBid(S, a) ==
   LET oid == OId(a.t, a.d, a.g, a.o)  gid == GId(a.t, a.d, a.g)  b == BId(a.t, a.d, a.g, a.o, a.p) IN
   IF \/ a.price = 0 \/ a.deposit < BidMinDeposit
+     \/ a.p = a.t \/ ADenom(a) # "uakt" \/ APDenom(a) # "uakt"
      \/ Cardinality({q \in Providers : Has(S.bid, BId(a.t, a.d, a.g, a.o, q))}) > OrderMaxBids
      \/ ~Has(S.ord, oid) \/ S.ord[oid].state # "open"
      \/ a.price > S.grp[gid].price
